@@ -183,6 +183,26 @@ var properties = map[string]*Property{
 		},
 		MustBePositive: []string{"signer-sched/probe:sign-overlapped-reload"},
 	},
+	"C17": {
+		ID: "C17",
+		Harnesses: []Harness{{
+			Name: "mech-sim", Property: "C17", Pkg: "./internal/verifsim/mechsim", Test: "TestVerifC17",
+			Dirs:     append([]string{"internal/verifsim/mechsim"}, exportDirs...),
+			Files:    []string{"zz_verif_c17_test.go"},
+			Race:     true,
+			Quick:    Tier{Runs: 1200, BudgetS: 120},
+			Thorough: Tier{Runs: 60000, BudgetS: 1500},
+		}},
+		Rule: "one case = the real catalogue (a prototype of every mechanism type, incl. metadata_endpoint variants) plus a seeded history of 3-12 variant creations with documented overrides and executions of prototypes and variants; after every operation the observable behaviour (remote requests sent, decision/error kind, headers, cookies, outputs, fallback/continue flags) of every instance seen so far is re-derived for a fixed probe request and at the end compared with the same configuration built alone in a fresh catalogue in reverse creation order; then 2-4 request tasks create and execute prototypes and variants of two mechanism types concurrently (first use included) under the seeded scheduler with the race detector. Non-trivial/distinct = distinct (focus types, schedule signature).",
+		Real: []string{"config loader, mechanism catalogue, mechanismsFactory and every mechanism's WithConfig and Execute", "endpoint, templates, values, oauth2 metadata endpoint, clientcredentials, jwt signer", "memory.Cache in the concurrent part"},
+		Stub: []string{"remote parties (simnet handlers)", "heimdall.Context (a plain request/outputs holder)"},
+		Assumptions: []string{
+			"behaviour is compared, not struct contents: third-party internals (CEL programs, templates) may legitimately differ structurally",
+			"interleavings are explored at remote calls and before executions; everything else is covered by the happens-before race detector",
+			"jti/iat/nbf/exp of issued tokens and the simulated exp of introspection answers are normalised",
+		},
+		MustBePositive: []string{"mech-sim/variants-created", "mech-sim/concurrent-executions"},
+	},
 	"C19": {
 		ID: "C19",
 		Harnesses: []Harness{{
